@@ -91,6 +91,7 @@ func (w *World) buildCallGraph() *CallGraph {
 			p := site.pkg.Fset.Position(x.Pos())
 			return fmt.Sprintf("%s:%d", shortFile(p.Filename), p.Line)
 		}
+		drained := sortedDrains(info, site.decl.Body)
 		ast.Inspect(site.decl.Body, func(x ast.Node) bool {
 			switch s := x.(type) {
 			case *ast.GoStmt:
@@ -100,7 +101,13 @@ func (w *World) buildCallGraph() *CallGraph {
 			case *ast.RangeStmt:
 				if t := info.TypeOf(s.X); t != nil {
 					if _, ok := t.Underlying().(*types.Map); ok {
-						n.Direct = append(n.Direct, EffectSite{"maprange", "range over map " + exprString(s.X), pos(s)})
+						if drained[s] {
+							// keys/values are only collected into a slice that is sorted (total order on
+							// a basic type) before anything else looks at it: the iteration order is gone
+							n.Direct = append(n.Direct, EffectSite{"maprange-sorted", "range over map " + exprString(s.X) + " (drained into a slice and sorted)", pos(s)})
+						} else {
+							n.Direct = append(n.Direct, EffectSite{"maprange", "range over map " + exprString(s.X), pos(s)})
+						}
 					}
 				}
 			case *ast.CallExpr:
@@ -754,4 +761,124 @@ func (w *World) methodMutatesReceiver(fn *types.Func) bool {
 		return true
 	})
 	return mut
+}
+
+
+// sortedDrains: the map ranges of a function body whose body does nothing but append (possibly
+// under a condition) to ONE slice variable, where the next statement of the enclosing block
+// that mentions that variable is sort.Strings / sort.Ints / sort.Float64s / slices.Sort of it.
+func sortedDrains(info *types.Info, body *ast.BlockStmt) map[*ast.RangeStmt]bool {
+	out := map[*ast.RangeStmt]bool{}
+	mentions := func(n ast.Node, name string) bool {
+		found := false
+		ast.Inspect(n, func(x ast.Node) bool {
+			if id, ok := x.(*ast.Ident); ok && id.Name == name {
+				found = true
+			}
+			return !found
+		})
+		return found
+	}
+	var appendTarget func(stmts []ast.Stmt) (string, bool)
+	appendTarget = func(stmts []ast.Stmt) (string, bool) {
+		target := ""
+		for _, st := range stmts {
+			switch x := st.(type) {
+			case *ast.AssignStmt:
+				if len(x.Lhs) != 1 || len(x.Rhs) != 1 || x.Tok != token.ASSIGN {
+					return "", false
+				}
+				l, ok := x.Lhs[0].(*ast.Ident)
+				if !ok {
+					return "", false
+				}
+				c, ok := x.Rhs[0].(*ast.CallExpr)
+				if !ok || len(c.Args) < 2 {
+					return "", false
+				}
+				if f, ok := c.Fun.(*ast.Ident); !ok || f.Name != "append" {
+					return "", false
+				}
+				if a0, ok := c.Args[0].(*ast.Ident); !ok || a0.Name != l.Name {
+					return "", false
+				}
+				for _, a := range c.Args[1:] {
+					if mentions(a, l.Name) {
+						return "", false
+					}
+				}
+				if target != "" && target != l.Name {
+					return "", false
+				}
+				target = l.Name
+			case *ast.IfStmt:
+				if x.Init != nil || x.Else != nil {
+					return "", false
+				}
+				t, ok := appendTarget(x.Body.List)
+				if !ok || (target != "" && t != target) {
+					return "", false
+				}
+				if mentions(x.Cond, t) {
+					return "", false
+				}
+				target = t
+			default:
+				return "", false
+			}
+		}
+		return target, target != ""
+	}
+	isTotalSort := func(st ast.Stmt, name string) bool {
+		es, ok := st.(*ast.ExprStmt)
+		if !ok {
+			return false
+		}
+		c, ok := es.X.(*ast.CallExpr)
+		if !ok || len(c.Args) != 1 {
+			return false
+		}
+		if a, ok := c.Args[0].(*ast.Ident); !ok || a.Name != name {
+			return false
+		}
+		se, ok := c.Fun.(*ast.SelectorExpr)
+		if !ok {
+			return false
+		}
+		pk, ok := se.X.(*ast.Ident)
+		if !ok {
+			return false
+		}
+		if pn, ok := info.Uses[pk].(*types.PkgName); ok {
+			p := pn.Imported().Path()
+			return (p == "sort" && (se.Sel.Name == "Strings" || se.Sel.Name == "Ints" || se.Sel.Name == "Float64s")) || (p == "slices" && se.Sel.Name == "Sort")
+		}
+		return false
+	}
+	ast.Inspect(body, func(n ast.Node) bool {
+		blk, ok := n.(*ast.BlockStmt)
+		if !ok {
+			return true
+		}
+		for i, st := range blk.List {
+			rs, ok := st.(*ast.RangeStmt)
+			if !ok {
+				continue
+			}
+			target, ok := appendTarget(rs.Body.List)
+			if !ok {
+				continue
+			}
+			for _, later := range blk.List[i+1:] {
+				if mentions(later, target) {
+					if isTotalSort(later, target) {
+						out[rs] = true
+					}
+					break
+				}
+			}
+		}
+		return true
+	})
+	return out
 }
